@@ -20,8 +20,8 @@ ASSUMPTIONS = ['thorough tier only: a coverage-guided atheris campaign (16 x 60k
                'viable-prefix sets are exact because generated grammars are reduced (all rules productive and reachable)',
                'overlapping terminals are fixed strings, so dynamic and dynamic_complete see the same match lengths']
 
-O_TOK = gramgen.Opts(terms='tok', max_rules=4, ignore=True, templates=True, priorities=True)
-O_OVL = gramgen.Opts(terms='ovl', max_rules=4, ignore=True)
+O_TOK = gramgen.Opts(terms='tok', max_rules=4, ignore=True, templates=True, priorities=True, ignore_in_rules=True)
+O_OVL = gramgen.Opts(terms='ovl', max_rules=4, ignore=True, ignore_in_rules=True)
 
 
 def outcome(p, w):
@@ -55,6 +55,7 @@ def check(case, ctx):
     pe = parsers[('earley', 'dynamic')]
     lrules = pe.rules
     ignore_names = set(pe.ignore_tokens)
+    ign_used = any(sym.is_term and sym.name in ignore_names for r in lrules for sym in r.expansion)
     lalr = None
     if ('lalr', 'basic') in parsers:
         lalr = reflalr.RefLALR(reflalr.from_lark(parsers[('lalr', 'basic')].rules), ['start'])
@@ -92,6 +93,11 @@ def check(case, ctx):
             ctx.label('dynamic:rejected-checked')
         if fam != 'tok':
             continue
+        if ign_used:
+            # a rule references an %ignore'd terminal: a basic/contextual lexer never delivers it, so the token-level parsers work on
+            # a grammar part of which is dead and their continuation sets name a token that cannot arrive; only the dynamic lexers,
+            # which do match such a terminal when a rule asks for it, are judged on these grammars
+            ctx.label('token-level:skipped (ignored terminal used by a rule)'); continue
         # ---- token level
         pb = parsers[('earley', 'basic')]
         toks = []; lexerr = None
